@@ -378,6 +378,49 @@ pub fn check(path: &str) -> Stats {
         }
         o => fail(&mut st, "cannot-rekey-pinned-msk", o.describe()),
     }
+    // from a fresh load of the pinned (format V1) master key: delete the attribute holding the highest
+    // id, update, round-trip, then add an attribute: it must not get the deleted attribute's id, and
+    // the key that held the deleted attribute must not gain the new one by refreshing
+    if let (Some(mut m), Some(mut holder)) = (load!(MasterSecretKey, hx(&v["msk"]), "msk"), usks.first().cloned()) {
+        let top = WMsk::parse(&hx(&v["msk"])).ok().and_then(|w| {
+            w.structure.dims.iter().flat_map(|d| d.attrs.iter().map(move |a| (a.id, String::from_utf8_lossy(&d.name).to_string(), String::from_utf8_lossy(&a.name).to_string()))).max()
+        });
+        if let Some((top_id, dn, an)) = top {
+            let _ = call(|| m.access_structure.del_attribute(&QualifiedAttribute::new(&dn, &an)));
+            if call(|| cc.update_msk(&mut m)).is_ok() {
+                match ser(&m).ok().map(|b| (de::<MasterSecretKey>(&b), b)) {
+                    Some((Out::Ok(m2), _)) => {
+                        st.bump("roundtrips_ok");
+                        if m2 != m {
+                            fail(&mut st, "pinned-msk-after-deletion-does-not-roundtrip", format!("deleted {dn}::{an} (id {top_id})"));
+                        }
+                        let mut m2 = m2;
+                        // (added in dimension D: a new attribute in another dimension would create rights
+                        // that are born disabled next to the disabled D::Low Sec)
+                        let dn = "D".to_string();
+                        let _ = call(|| m2.access_structure.add_attribute(QualifiedAttribute::new(&dn, "Newer"), hint(false), None));
+                        if let Out::Ok(mpk) = call(|| cc.update_msk(&mut m2)) {
+                            if let Some(id) = ser(&m2).ok().and_then(|b| WMsk::parse(&b).ok()).and_then(|w| w.structure.attr_id(&dn, "Newer")) {
+                                if id == top_id {
+                                    fail(&mut st, "deleted-id-reused-after-roundtrip-of-pinned-msk", format!("id {id}"));
+                                }
+                            }
+                            // usks[0] is "D::A && H::T": it held the deleted H::T
+                            let _ = call(|| cc.refresh_usk(&mut m2, &mut holder, true));
+                            let ap = AccessPolicy::parse(&format!("{dn}::Newer")).unwrap();
+                            if let Out::Ok((_, x)) = call(|| cc.encaps(&mpk, &ap)) {
+                                st.bump("golden_decaps");
+                                if !matches!(call(|| cc.decaps(&holder, &x)), Out::Ok(None)) {
+                                    fail(&mut st, "holder-of-deleted-attribute-gains-the-new-one", format!("{dn}::Newer"));
+                                }
+                            }
+                        }
+                    }
+                    _ => fail(&mut st, "pinned-msk-after-deletion-does-not-deserialize", String::new()),
+                }
+            }
+        }
+    }
     // the pinned master key re-serializes and round-trips
     if let Some(b) = ser(&msk).ok() {
         if de::<MasterSecretKey>(&b).ok().map_or(true, |m| m != msk) {
